@@ -25,9 +25,40 @@ fn loader(fen: &str) -> Result<Result<BoardState, String>, String> {
     }
 }
 
+/// 1..=200 characters mixing 1-, 2-, 3- and 4-byte UTF-8, with a shifted alignment, so that
+/// character boundaries fall on every byte offset of an over-long input
+fn long_garbage(rng: &mut Rng) -> String {
+    const POOL: &[&str] = &["x", "8", "/", " ", "p", "\u{00e9}", "\u{4e2d}", "\u{265e}", "\u{1f600}", "\u{0661}"];
+    let n = 1 + rng.below(200) as usize;
+    let mut s = String::new();
+    for _ in 0..rng.below(4) {
+        s.push('k');
+    }
+    let heavy = rng.chance(1, 2);
+    for _ in 0..n {
+        s.push_str(if heavy { *rng.pick(&POOL[5..9]) } else { *rng.pick(POOL) });
+    }
+    s
+}
+
 fn mutate(rng: &mut Rng, fen: &str) -> (String, &'static str) {
     let chars: Vec<char> = fen.chars().collect();
     let fields: Vec<&str> = fen.split(' ').collect();
+    if rng.chance(1, 8) {
+        // over-long input: garbage appended, prepended or spliced in
+        let g = long_garbage(rng);
+        return match rng.below(3) {
+            0 => (format!("{}{}", fen, g), "over-long"),
+            1 => (format!("{}{}", g, fen), "over-long"),
+            _ => {
+                let i = rng.below(chars.len() as u64 + 1) as usize;
+                let mut c = chars.clone();
+                let ins: Vec<char> = g.chars().collect();
+                c.splice(i..i, ins);
+                (c.into_iter().collect(), "over-long")
+            }
+        };
+    }
     match rng.below(12) {
         0 => {
             let cut = rng.below(chars.len() as u64 + 1) as usize;
